@@ -10,8 +10,10 @@ from units import UNITS  # noqa: E402
 # properties whose theorems rest on another property's model: the translator-tie theorems of the foundation are
 # obligations of the dependent property too (a changed limb kernel invalidates the composition)
 DEP_MODULES = {
-    "C06": ["CxVerif.Props.C05.KernelTie"], "C07": ["CxVerif.Props.C05.KernelTie"],
-    "C09": ["CxVerif.Props.C05.KernelTie", "CxVerif.Props.C01.KernelTieSha256", "CxVerif.Props.C01.KernelTieSha512",
+    "C04": ["CxVerif.Props.C03.KernelTie"],
+    "C06": ["CxVerif.Props.C05.KernelTie", "CxVerif.Props.C05.KernelTieNew", "CxVerif.Props.C03.KernelTie"],
+    "C07": ["CxVerif.Props.C05.KernelTie", "CxVerif.Props.C05.KernelTieNew", "CxVerif.Props.C03.KernelTie"],
+    "C09": ["CxVerif.Props.C05.KernelTie", "CxVerif.Props.C05.KernelTieNew", "CxVerif.Props.C01.KernelTieSha256", "CxVerif.Props.C01.KernelTieSha512",
             "CxVerif.Props.C01.KernelTieKeccak", "CxVerif.Props.C01.KernelTieBlake2"],
     "C10": ["CxVerif.Props.C01.KernelTieSha256", "CxVerif.Props.C01.KernelTieSha512", "CxVerif.Props.C01.KernelTieSha1"],
     "C11": ["CxVerif.Props.C01.KernelTieBlake2"],
